@@ -66,8 +66,9 @@ PROP = {
                   "(C02_sheet_cells_decode, C02_book_cells_decode, C02_book_cell_decodes; the writer is total for columns >= 1: C02_cell_written, C02_book_written); the decoded "
                   "reference is the cell's own column and row under the decoder's A1 reading (C02_cell_position); text content is rendered as the lexer delivers it (C02_chardata_lexed). "
                   "No hypothesis on characters, numbers, sizes or table state. Kinds follow the table text/rich->s, number->n, bool->b, error->e, blank->'' except for a formula "
-                  "without cached value (reads as an empty string result; equal under the view's normalisation: C02_cell_kind_normalised) and an unresolved lazy value (reads as an "
-                  "empty number): C02_cell_decodes_plain_partial / C02_cell_kind_partial (hypothesis plainKind) with witnesses C02_cell_uncached_formula_fails, C02_cell_lazy_fails. "
+                  "without cached value (reads as an empty string result; equal under the view's normalisation: C02_cell_kind_normalised, which holds for EVERY cell); "
+                  "kind and value text are those of the value written (an unresolved lazy value is written as the typed value it stands for since C01's fix 6: C02_cell_lazy_decodes): "
+                  "C02_cell_decodes_plain_partial / C02_cell_kind_partial (hypothesis plainKind) with witness C02_cell_uncached_formula_fails. "
                   "Tie of the cell clause to the code on every run (request `c02 bridge`): (a) every <c> parsed by the independent XML reader from the real sheet parts is tree-equal to "
                   "cellNode of the fact a non-unescaping scanner read from the same bytes; (b) the shared strings read from the real part equal those of the rendered <si> facts; "
                   "(c) for generated workbooks the writer model run on the in-memory cells yields exactly these cell facts and <si> texts; (d) decodeCell on the real trees equals fileView of the model cells. "
@@ -114,7 +115,7 @@ PROP = {
     "expect_theorems": ["C02_datatype_matches_source", "C02_channels_match_source", "C02_text_channel", "C02_text_channel_conversion", "C02_attr_channel", "C02_escaped_is_inert", "C02_sheetdata_ascending",
                         "C02_hyperlink_pairing",
                         "C02_table_only_grows", "C02_si_decodes", "C02_sst_decodes", "C02_cell_decodes", "C02_cell_written",
-                        "C02_cell_kind_partial", "C02_cell_decodes_plain_partial", "C02_cell_uncached_formula_fails", "C02_cell_lazy_fails", "C02_cell_kind_normalised",
+                        "C02_cell_kind_partial", "C02_cell_decodes_plain_partial", "C02_cell_uncached_formula_fails", "C02_cell_lazy_decodes", "C02_cell_kind_normalised",
                         "C02_sheet_cells_decode", "C02_book_cells_decode", "C02_book_cell_decodes", "C02_book_written",
                         "C02_chardata_lexed", "C02_cell_position",
                         "C02_writer_matches_source", "C02_bytes_start_tag", "C02_bytes_end_tag", "C02_bytes_decl", "C02_bytes_parse", "C02_bytes_normal_form",
